@@ -32,7 +32,8 @@ def generate(tier, rng):
         tmax = rng.choice([DEN // 4, DEN, 3 * DEN, 4000])
         g = iogen.rand_dtg(rng, tmax, sliver=SLIVERS if rng.random() < 0.8 else None)
         if rng.random() < 0.3:
-            g = iogen.shift_dtg(g, rng.choice([5, 1000, DEN // 8]))       # a span that does not start at 0
+            # a span that does not start at 0; far from 0 (2^22 s, still exact on this grid) a tick is ~1e-16 of the time values
+            g = iogen.shift_dtg(g, rng.choice([5, 1000, DEN // 8, 2 ** 22 * DEN, 2 ** 22 * DEN]))
         blanks = rng.random() < 0.85
         mn = mx = None
         u = rng.random()
@@ -41,7 +42,7 @@ def generate(tier, rng):
         if 0.1 < u < 0.3:
             mx = rng.choice([g["xmax"], g["xmax"] + DEN, g["xmax"] - 1, tmax // 2])
         times = sorted(set(x for t in g["tiers"] for e in t["entries"] for x in e[:-1]))
-        if times and rng.random() < 0.08:
+        if times and rng.random() < 0.12:
             # an override that cuts through the data (a point or an interval of any tier, blank filling on or off): the save must refuse
             if rng.random() < 0.5:
                 mn, mx = rng.choice(times) + rng.choice([1, 1, 7]), None
@@ -73,12 +74,28 @@ def run(case):
         ref = iogen.content_of_tgjson(txt)
         for fmt, dec in (("json", iogen.content_of_json), ("short_textgrid", iogen.content_of_text), ("long_textgrid", iogen.content_of_text)):
             c = dec(iogen.save_via(tg, fmt, case["blanks"], mn, mx, case["thr"]))
-            if (c["xmin"], c["xmax"]) != (ref["xmin"], ref["xmax"]):
+            if not (_same_time(ref["xmin"], c["xmin"]) and _same_time(ref["xmax"], c["xmax"])):
                 raise core.OffGrid("%s file spans %r but textgrid_json %r for the same save" % (fmt, (c["xmin"], c["xmax"]), (ref["xmin"], ref["xmax"])))
-            if [(t["name"], t["entries"]) for t in c["tiers"]] != [(t["name"], t["entries"]) for t in ref["tiers"]]:
+            if not _same_tiers(ref["tiers"], c["tiers"]):
                 raise core.OffGrid("%s file holds other entries than textgrid_json for the same save" % fmt)
         return iogen.dtg_from_json(txt, lambda x: core.tk(x, sc))
     return core.run_guarded(f)
+
+
+def _same_time(a, b):
+    """a: the time in the textgrid_json file (binary64, exact); b: the time in another format.  The text formats write a
+    time within 1e-14 (relative) of an integer as that integer (C01 states the exemption)"""
+    return a == b or (b == int(b) and iogen.isclose14(a, b))
+
+
+def _same_tiers(ref, other):
+    if [(t["name"], len(t["entries"])) for t in ref] != [(t["name"], len(t["entries"])) for t in other]:
+        return False
+    for t, u in zip(ref, other):
+        for e, f in zip(t["entries"], u["entries"]):
+            if e[-1] != f[-1] or not all(_same_time(x, y) for x, y in zip(e[:-1], f[:-1])):
+                return False
+    return True
 
 
 def emit(case, r):
